@@ -202,6 +202,8 @@ def gen_scenarios(ctx, n):
                 s.sync('getlink', A(k))
         elif fam in ('resolve', 'mixed6'):
             # unknown neighbour: request(s), then the mapping arrives after 1..3 requests; waiting operations proceed
+            if rng.random() < 0.25:
+                s.d['refuse'] = [rng.choice([1, 1, 2])]       # the link refuses one request: lost before the wire
             nops = rng.choice([1, 1, 2, 3])
             ids = [s.bg(rng.choice(KINDS), A(0), after_ms=rng.choice([0, 0, 5, 300])) for _ in range(nops)]
             k = rng.choice([1, 1, 2, 3])
@@ -221,6 +223,10 @@ def gen_scenarios(ctx, n):
                     pass
         elif fam == 'fail':
             # nobody answers: exactly 3 requests, then every waiter fails; negative answer is immediate afterwards; a late reply repairs it
+            # (in a third of the scenarios the LINK refuses to transmit one or two of the requests - a full transmit queue: those
+            #  requests are lost like any other, the resolution goes on and ends all the same)
+            if rng.random() < 0.35:
+                s.d['refuse'] = sorted(rng.sample([1, 2, 3], rng.choice([1, 1, 2])))
             nops = rng.choice([1, 2, 3])
             ids = [s.bg(rng.choice(KINDS), A(0), after_ms=rng.choice([0, 0, 400, 1500])) for _ in range(nops)]
             if rng.random() < 0.6:
